@@ -2,6 +2,7 @@ package main
 
 import (
 	"fmt"
+	"os"
 	"go/token"
 	"go/types"
 	"sort"
@@ -45,6 +46,20 @@ func (c *fnCtx) enterLoop(b *ssa.BasicBlock, preds []*ssa.BasicBlock, conds []st
 		entryVals[phi] = c.mergePhi(phi, b, preds, conds)
 	}
 	// havoc the loop's write set and the loop-carried values
+	if os.Getenv("DEBUGLOOP") != "" {
+		fmt.Fprintf(os.Stderr, "LOOP %s #%d top=%v keys=%d\n", c.fnName(), li.ord, li.mods.Top, len(li.mods.Keys))
+		for b := range li.blocks {
+			for _, in := range b.Instrs {
+				m := newModSet()
+				c.eng.instrMods(m, in, c.f, nil)
+				for k := range m.Keys {
+					if strings.Contains(k, "BaseLayer") {
+						fmt.Fprintf(os.Stderr, "   %s writes %s at %v\n", in.String(), k, c.eng.prog.Fset.Position(in.Pos()))
+					}
+				}
+			}
+		}
+	}
 	c.havocSet(li.mods)
 	li.phiH = map[*ssa.Phi]*Val{}
 	for _, phi := range phis {
@@ -91,7 +106,11 @@ func (c *fnCtx) enterLoop(b *ssa.BasicBlock, preds []*ssa.BasicBlock, conds []st
 	}
 	li.hdrState = c.st.clone()
 	if li.cands == nil {
-		c.buildCandidates(li, phis)
+		if c.noCands {
+			li.cands = []*invCand{}
+		} else {
+			c.buildCandidates(li, phis)
+		}
 	}
 	hdrEnv := &loopEnv{phi: li.phiH, st: c.st, entry: entryVals, hdrSt: c.st}
 	entEnv := &loopEnv{phi: entryVals, st: li.entrySt, entry: entryVals, hdrSt: c.st}
